@@ -187,6 +187,46 @@ def search(rep: C.Report, tier: str, broken):
             if abs(h2.vJ - hw.vJ) > 1e-6 or abs(vmj - csj) > 5e-3:
                 rep.violation("Jouguet velocity depends on where the tabulated low-T range ends (not the Chapman-Jouguet point)",
                               dict(info, vJ=h2.vJ, vm=float(vmj), cs_minus=csj), finding_key="C06:CJ-strong")
+    # a scan over equations of state at ONE nucleation temperature on ONE velocity grid, a fresh Hydrodynamics object per EOS: every matching
+    # must be classified and admissible for ITS equation of state, whatever was asked of other objects before
+    scan = [("twostep", models.twostep_eos(Tn=0.9)), ("bag psi=0.9", models.BagEOS(ap=3.0, am=2.7, eps=0.1, Tn=0.9)),
+            ("bag psi=0.6", models.BagEOS(ap=3.0, am=1.8, eps=0.4, Tn=0.9)), ("template", models.BagEOS(ap=3.0, am=2.2, eps=0.3, mu=4.2, nu=3.8, Tn=0.9))]
+    for nm_, e_ in scan:
+        try:
+            h_ = _H(e_, 10.0, 0.01, 1e-6, 1e-10)
+        except Exception:  # noqa: BLE001
+            continue
+        for vw in (0.3, 0.6, 0.7, 0.8, 0.95):
+            if vw <= h_.vMin:
+                continue
+            try:
+                vp, vm, Tp, Tm = map(float, h_.findMatching(vw))
+            except Exception:  # noqa: BLE001
+                continue
+            cs = math.sqrt(float(e_.csqLowT(Tm)))
+            rep.case(key=("eos-scan-same-Tn", nm_, vw))
+            rep.count("EOS scan at one Tn and one velocity grid")
+            bad = []
+            if vw > h_.vJ:
+                if vp != vw or Tp != h_.Tnucl or not vm < vp:
+                    bad.append("above vJ the matching is not a detonation (v+ = vw, T+ = Tn, v- < v+)")
+            else:
+                if not vp < vm or not Tp > h_.Tnucl * (1 - 1e-9):
+                    bad.append("below vJ the matching is not a deflagration/hybrid (v+ < v-, T+ > Tn)")
+                if abs(vm - min(vw, cs)) > 1e-7:
+                    bad.append("v- is not min(vw, cs-(T-))")
+            # junction conditions judged by backward error (distance to an exact solution), not by the raw flux residual, which gamma^2 amplifies
+            try:
+                err_, ok_, _ = HC.polish(e_, HC.branch_of(h_, vw, vm, Tm), vw, vp, vm, Tp, Tm)
+            except Exception:  # noqa: BLE001
+                err_, ok_ = 0.0, True
+            if not ok_ or err_ > 5e-5:
+                bad.append("the matching does not satisfy the junction conditions of this equation of state")
+            for b in bad:
+                rep.violation(f"EOS scan at one nucleation temperature: {b}",
+                              {"eos": nm_, "Tn": 0.9, "vw": vw, "vJ": h_.vJ, "vp": vp, "vm": vm, "Tp": Tp, "Tm": Tm, "cs_minus": cs,
+                               "earlier_in_this_process": "the preceding equations of state of the scan, same velocities"},
+                              finding_key="C06:eos-scan-history")
     # phase-temperature ranges that cut the window short (bag/template EOS with artificial upper ranges).
     # The cuts are derived from the real matching: T-(v1) and T+(v2) for chosen v1, v2, so that each phase alone, both with the
     # high-T phase reached first, and both with the LOW-T phase reached first all occur.
